@@ -548,7 +548,7 @@ def gen_exhaustive(stopper, tier_sets):
         if tier == "search":
             return
         for prm in tier_sets[tier]:
-            for fam, curves in (EXH_CURVES if tier == "thorough" else [EXH_CURVES[i] for i in prm.get("_curves", [0])]):
+            for fam, curves in [EXH_CURVES[i] for i in prm.get("_curves", [0])]:
                 base = dict(stopper=stopper, scale=0, eps=prm.get("eps", "default"), family=fam, lazy=False, drain=False)
                 base.update({k: v for k, v in prm.items() if not k.startswith("_")})
                 for pre in itertools.product(range(3), repeat=4):
@@ -595,12 +595,14 @@ def check_any(case):
 
 EXH_ASHA = {
     "quick": [dict(rf=2, min_steps=1, _curves=[2]), dict(rf=3, min_steps=2, eps=[0, 0], _curves=[1])],
-    "thorough": [dict(rf=rf, min_steps=m, mesr=e, min_full=(1 if (rf + m + e) % 3 == 0 else 0), eps=("default" if (rf + m) % 2 else [0, 0]))
+    "thorough": [dict(rf=rf, min_steps=m, mesr=e, min_full=(1 if (rf + m + e) % 3 == 0 else 0), eps=("default" if (rf + m) % 2 else [0, 0]),
+                      _curves=([0, 2] if (rf + m + e) % 2 else [1, 3]))
                  for rf in (2, 3, 4) for m in (1, 2) for e in (0, 1)],
 }
 EXH_MEDIAN = {
     "quick": [dict(min_comp=2, interval=1, min_steps=1, eps=[0, 0], _curves=[1]), dict(min_comp=3, interval=2, min_steps=1, _curves=[2])],
-    "thorough": [dict(min_comp=mc, interval=iv, min_steps=(2 if (mc + iv) % 4 == 0 else 1), eps=("default" if (mc + iv) % 2 else [0, 0]))
+    "thorough": [dict(min_comp=mc, interval=iv, min_steps=(2 if (mc + iv) % 4 == 0 else 1), eps=("default" if (mc + iv) % 2 else [0, 0]),
+                      _curves=([1, 3] if (mc + iv + mc // 2) % 2 == 0 else [0, 2]))
                  for mc in (0, 1, 2, 3) for iv in (1, 2, 3)],
 }
 
